@@ -712,6 +712,35 @@ def case_aseq_small(rng, ctx):
         if got != m.s[p - m.start]:
             ctx.fail("int_index", "aseq[%d] = %r, model %r" % (p, got, m.s[p - m.start]), **m.describe())
     ctx.op("aseq[int]", len(m.s))
+    # assignment by position: aseq[a:b] = s / aseq[p] = x writes exactly the bases a..b-1 (all four slice forms), counted
+    # from the sequence start of the object
+    if len(m.s) >= 1:
+        ctx.oracle("set_frame")
+        work = aseq.copy()
+        cur = m.s
+        L = len(cur)
+        a = m.start + int(rng.integers(0, L))
+        b = a + int(rng.integers(0, m.end - a + 1))
+        for lo, hi in ((a, b), (a, None), (None, b), (None, None)):
+            i0 = 0 if lo is None else lo - m.start
+            i1 = L if hi is None else hi - m.start
+            new = "".join("ACGT"[int(i)] for i in rng.integers(0, 4, size=i1 - i0))
+            ctx.op("aseq[%s:%s]=s" % ("a" if lo is not None else "", "b" if hi is not None else ""))
+            if i1 - i0 == 0:
+                continue
+            work[lo:hi] = NucleotideSequence(new)
+            cur = cur[:i0] + new + cur[i1:]
+            if sstr(work.sequence) != cur:
+                ctx.fail("set_frame", "after aseq[%r:%r] = %r the sequence is %r, model %r" % (lo, hi, new, sstr(work.sequence), cur), **m.describe())
+        pos = m.start + int(rng.integers(0, L))
+        sym = "ACGT"[int(rng.integers(4))]
+        ctx.op("aseq[int]=x")
+        work[pos] = sym
+        cur = cur[:pos - m.start] + sym + cur[pos - m.start + 1:]
+        if sstr(work.sequence) != cur:
+            ctx.fail("set_frame", "after aseq[%d] = %r the sequence is %r, model %r" % (pos, sym, sstr(work.sequence), cur), **m.describe())
+        if sstr(aseq.sequence) != m.s:
+            ctx.fail("copy_independent", "assigning to positions of a copy changed the original", **m.describe())
     if results:
         res, rm = results[int(rng.integers(len(results)))]
         ctx.log("second_level_all", rm.start, rm.end)
